@@ -1,4 +1,4 @@
-import ZipVerif.Lemmas.FaithfulEntry
+import ZipVerif.Lemmas.FaithfulModes
 /-
 Faithfulness, part 4: whole runs of both extractors on a consistent archive and a fresh target.
 -/
@@ -11,10 +11,13 @@ open ZipVerif ZipVerif.Spec.Paths ZipVerif.Spec.FS ZipVerif.Spec.Tree ZipVerif.M
 theorem Consistent.entryOK {c : Cfg} {rootMode : Nat} {es : List EntryView} (h : Consistent c rootMode es)
     {e : EntryView} (he : e ∈ es) : EntryOK c es e := by
   obtain ⟨h1, h2, h3, _, h5⟩ := h
-  refine ⟨he, (h1 e he).1, (h1 e he).2.1, (h1 e he).2.2, h2 e he, h3 e he, ?_⟩
-  rcases h5 with h5 | h5
+  exact ⟨he, (h1 e he).1, (h1 e he).2.1, (h1 e he).2.2, h2 e he, h3 e he⟩
+
+theorem Consistent.unlocked {c : Cfg} {rootMode : Nat} {es : List EntryView} (h : Consistent c rootMode es) :
+    c.priv = true ∨ Unlocked es := by
+  rcases h.2.2.2.2 with h5 | h5
   · exact Or.inl h5
-  · exact Or.inr (h5.2.2.2 e he)
+  · exact Or.inr h5.2.2.2
 
 theorem Consistent.permCfg {c : Cfg} {rootMode : Nat} {es : List EntryView} (h : Consistent c rootMode es) :
     PermCfg c := by
@@ -65,96 +68,100 @@ theorem Fresh.kinds {c : Cfg} {fs : FS} {root : Path} {rootMode : Nat} (es : Lis
     exact Or.inl rfl
   · rw [h3 r hr] at hl; cases hl
 
-/-! ### the seekable extractor -/
+/-! ### placing every entry -/
 
-theorem seekEntry_eq {c : Cfg} {root : Path} {es : List EntryView} {fs : FS} {e : EntryView}
-    (hi : Inv c root fs) (hk : Kinds root es fs) (hpc : PermCfg c)
-    (hDF : ∀ r, DirAt es r → FileAt es r → False) (he : EntryOK c es e) :
-    seekEntry c root e fs = (setMode root e.name e.mode (putEntry c root e fs), none) ∧
-      Inv c root (setMode root e.name e.mode (putEntry c root e fs)) ∧
-      Kinds root es (setMode root e.name e.mode (putEntry c root e fs)) := by
-  obtain ⟨hpl, hi1, hk1, _, hplaced⟩ := placeEntry_eq hi hk hpc hDF he true
-  have hfile : isDirName e.name = false → tailDot e.name = false ∧ e.name ≠ [] := by
-    intro hd
-    obtain ⟨h1, h2⟩ := he.file hd
-    refine ⟨h1, ?_⟩
-    intro e0
-    rw [e0, relComps_nil] at h2; simp [lastNormal] at h2
-  obtain ⟨ham, hi2, hk2, _⟩ := applyMode_eq (mode := e.mode) hi1 hk1 hplaced he.safe hfile he.perms
-  obtain ⟨p, hp⟩ := Option.isSome_iff_exists.mp he.enclosed
-  refine ⟨?_, hi2, hk2⟩
-  simp only [seekEntry, he.openOk, hp, hpl, ham]
-
-theorem extractSeek_eq {c : Cfg} {root : Path} {es : List EntryView} (hpc : PermCfg c)
-    (hDF : ∀ r, DirAt es r → FileAt es r → False) (rest : List EntryView)
+theorem placeFiles_eq {c : Cfg} {root : Path} {es : List EntryView} (hpc : PermCfg c)
+    (hDF : ∀ r, DirAt es r → FileAt es r → False) (chk : Bool) (rest : List EntryView)
     (hrest : ∀ e ∈ rest, EntryOK c es e) (fs : FS) (hi : Inv c root fs) (hk : Kinds root es fs) :
-    extractSeek c root rest fs = (treeOf c root rest fs, none) := by
-  induction rest generalizing fs with
-  | nil => rfl
-  | cons e rest ih =>
-    obtain ⟨h1, hi1, hk1⟩ := seekEntry_eq hi hk hpc hDF (hrest e (by simp))
-    simp only [extractSeek, treeOf, h1]
-    exact ih (fun e' he' => hrest e' (List.mem_cons_of_mem _ he')) _ hi1 hk1
-
-/-! ### the streaming extractor -/
-
-theorem streamFiles_eq {c : Cfg} {root : Path} {es : List EntryView} (hpc : PermCfg c)
-    (hDF : ∀ r, DirAt es r → FileAt es r → False) (rest : List EntryView)
-    (hrest : ∀ e ∈ rest, EntryOK c es e) (fs : FS) (hi : Inv c root fs) (hk : Kinds root es fs) :
-    streamFiles c root rest fs = (putAll c root rest fs, none) ∧ Inv c root (putAll c root rest fs) ∧
+    placeFiles c chk root rest fs = (putAll c root rest fs, none) ∧ Inv c root (putAll c root rest fs) ∧
       Kinds root es (putAll c root rest fs) ∧ Grows c fs (putAll c root rest fs) ∧
       ∀ e ∈ rest, Placed c root (putAll c root rest fs) e.name := by
   induction rest generalizing fs with
   | nil => exact ⟨rfl, hi, hk, Grows.refl c fs, by simp⟩
   | cons e rest ih =>
     have he := hrest e (by simp)
-    obtain ⟨hpl, hi1, hk1, hg1, hplaced⟩ := placeEntry_eq hi hk hpc hDF he false
+    obtain ⟨hpl, hi1, hk1, hg1, hplaced⟩ := placeEntry_eq hi hk hpc hDF he chk
     obtain ⟨h2, hi2, hk2, hg2, hp2⟩ :=
       ih (fun e' he' => hrest e' (List.mem_cons_of_mem _ he')) _ hi1 hk1
     obtain ⟨p, hp⟩ := Option.isSome_iff_exists.mp he.enclosed
     refine ⟨?_, hi2, hk2, hg1.trans hg2, ?_⟩
-    · simp only [streamFiles, streamFile, he.openOk, hp, hpl, putAll, h2]
+    · simp only [placeFiles, placeFile, he.openOk, hp, hpl, putAll, h2]
     · intro e' he'
       rcases List.mem_cons.mp he' with rfl | he'
       · exact hplaced.grows hg2
       · exact hp2 e' he'
 
-theorem streamMetas_eq {c : Cfg} {root : Path} {es : List EntryView} (rest : List EntryView)
-    (hrest : ∀ e ∈ rest, EntryOK c es e) (fs : FS) (hi : Inv c root fs) (hk : Kinds root es fs)
-    (hpl : ∀ e ∈ rest, Placed c root fs e.name) :
-    streamMetas c root (rest.map fun e => (e.name, e.mode)) fs =
-      (setModes root (rest.map fun e => (e.name, e.mode)) fs, none) := by
-  induction rest generalizing fs with
+/-! ### applying the recorded modes, deepest first -/
+
+theorem EntryOK.fileName {c : Cfg} {es : List EntryView} {e : EntryView} (he : EntryOK c es e) :
+    isDirName e.name = false → tailDot e.name = false ∧ e.name ≠ [] := by
+  intro hd
+  obtain ⟨h1, h2⟩ := he.file hd
+  refine ⟨h1, ?_⟩
+  intro e0
+  rw [e0, relComps_nil] at h2; simp [lastNormal] at h2
+
+theorem modeOrder_sorted (ms : List (Name × Option Nat)) :
+    (modeOrder ms).Pairwise fun a b => pathDepth b.1 ≤ pathDepth a.1 := by
+  unfold modeOrder
+  rw [List.pairwise_map]
+  have hs := sorted_sortModes (pendingOf ms)
+  refine hs.imp_of_mem ?_
+  intro a b ha hb hab
+  rw [← (mem_pendingOf.mp (mem_sortModes.mp ha)).2, ← (mem_pendingOf.mp (mem_sortModes.mp hb)).2]
+  exact hab
+
+theorem modes_eq {c : Cfg} {root : Path} {es : List EntryView}
+    (hDF : ∀ r, DirAt es r → FileAt es r → False) (hun : c.priv = true ∨ Unlocked es)
+    (hall : ∀ e ∈ es, EntryOK c es e) (fs : FS) (hi : Inv c root fs) (hk : Kinds root es fs)
+    (hpl : ∀ e ∈ es, Placed c root fs e.name) :
+    applyModes c root (modeOrder (es.map fun e => (e.name, e.mode))) fs =
+      (setModes root (modeOrder (es.map fun e => (e.name, e.mode))) fs, none) := by
+  apply applyModes_eq hDF hun _ (modeOrder_sorted _) _ fs hk
+  · intro m hm
+    obtain ⟨e, he, rfl⟩ := List.mem_map.mp (mem_modeOrder hm).1
+    exact reach_of_placed hi (hpl e he) (hall e he).safe (hall e he).fileName
+  · intro m hm
+    obtain ⟨hmem, hsome⟩ := mem_modeOrder hm
+    obtain ⟨e, he, rfl⟩ := List.mem_map.mp hmem
+    exact ⟨hsome, e, he, rfl, hall e he⟩
+
+/-! ### the two extractors -/
+
+theorem extractSeek_eq {c : Cfg} {root : Path} {es : List EntryView} (hpc : PermCfg c)
+    (hDF : ∀ r, DirAt es r → FileAt es r → False) (hun : c.priv = true ∨ Unlocked es)
+    (hall : ∀ e ∈ es, EntryOK c es e) (fs : FS) (hi : Inv c root fs) (hk : Kinds root es fs) :
+    extractSeek c root es fs = (treeOf c root es fs, none) := by
+  obtain ⟨h1, hi1, hk1, _, hp1⟩ := placeFiles_eq hpc hDF true es hall fs hi hk
+  unfold extractSeek treeOf
+  rw [h1]
+  exact modes_eq hDF hun hall _ hi1 hk1 hp1
+
+theorem checkMetas_none {c : Cfg} {es : List EntryView} (rest : List EntryView)
+    (hrest : ∀ e ∈ rest, EntryOK c es e) : checkMetas (rest.map fun e => (e.name, e.mode)) = none := by
+  induction rest with
   | nil => rfl
   | cons e rest ih =>
-    have he := hrest e (by simp)
-    have hfile : isDirName e.name = false → tailDot e.name = false ∧ e.name ≠ [] := by
-      intro hd
-      obtain ⟨h1, h2⟩ := he.file hd
-      refine ⟨h1, ?_⟩
-      intro e0
-      rw [e0, relComps_nil] at h2; simp [lastNormal] at h2
-    obtain ⟨ham, hi2, hk2, hg2⟩ :=
-      applyMode_eq (mode := e.mode) hi hk (hpl e (by simp)) he.safe hfile he.perms
-    obtain ⟨p, hp⟩ := Option.isSome_iff_exists.mp he.enclosed
-    simp only [List.map_cons, streamMetas, streamMeta, hp, ham, setModes]
-    exact ih (fun e' he' => hrest e' (List.mem_cons_of_mem _ he')) _ hi2 hk2
-      (fun e' he' => (hpl e' (List.mem_cons_of_mem _ he')).grows hg2)
+    obtain ⟨p, hp⟩ := Option.isSome_iff_exists.mp (hrest e (by simp)).enclosed
+    simp only [List.map_cons, checkMetas, hp]
+    exact ih (fun e' he' => hrest e' (List.mem_cons_of_mem _ he'))
 
 theorem extractStream_eq {c : Cfg} {root : Path} {es : List EntryView} (hpc : PermCfg c)
-    (hDF : ∀ r, DirAt es r → FileAt es r → False) (hall : ∀ e ∈ es, EntryOK c es e) (hne : es ≠ [])
+    (hDF : ∀ r, DirAt es r → FileAt es r → False) (hun : c.priv = true ∨ Unlocked es)
+    (hall : ∀ e ∈ es, EntryOK c es e) (hne : es ≠ [])
     (fs : FS) (hi : Inv c root fs) (hk : Kinds root es fs) :
-    extractStream c root es (es.map fun e => (e.name, e.mode)) fs = (treeOfStream c root es fs, none) := by
-  obtain ⟨h1, hi1, hk1, _, hp1⟩ := streamFiles_eq hpc hDF es hall fs hi hk
-  have h2 := streamMetas_eq es hall _ hi1 hk1 hp1
-  unfold extractStream treeOfStream
+    extractStream c root es (es.map fun e => (e.name, e.mode)) fs = (treeOf c root es fs, none) := by
+  obtain ⟨h1, hi1, hk1, _, hp1⟩ := placeFiles_eq hpc hDF false es hall fs hi hk
+  have h2 := modes_eq hDF hun hall _ hi1 hk1 hp1
+  have h3 := checkMetas_none es hall
+  unfold extractStream treeOf
   rw [h1]
   simp only
   cases es with
   | nil => exact absurd rfl hne
   | cons e es' =>
-    simp only [List.map_cons]
-    simp only [List.map_cons] at h2
+    simp only [List.map_cons] at h2 h3 ⊢
+    rw [h3]
     exact h2
 
 end ZipVerif.Model.Extract
